@@ -870,7 +870,13 @@ class FnTranslator:
         if self.is_result:
             return self.result_comp(e, env)
         pre = []
-        term, ty = self.expr(e, env, pre, self.val_ty)
+        term, ty = self.expr(e, env, pre, self.val_ty if self.val_ty[0] != "opaque" else None)
+        if self.val_ty[0] == "opaque" and ty[0] == "struct" and self.ret == self.val_ty:
+            # (b0507) a struct value returned where the signature names a type the unit does not know
+            # (`Arc<dyn Validator>`, `Box<dyn Policy>`): rustc accepted it, so it is the unsizing coercion of that struct
+            # to a trait object; the generated definition returns the concrete struct
+            self.dropped.append("unsizing coercion of the returned %s to the declared %s" % (ty[1], self.val_ty[1]))
+            self.ret = self.val_ty = ty
         self.check_ty(ty, self.val_ty, "return value")
         return self.wrap(pre, P(self.pack(env, term)))
 
@@ -894,6 +900,8 @@ class FnTranslator:
                 pre = []
                 a = self.args_for(info, e[4], env, pre)
                 for x in info.exts: self.add_ext(*x, ops=getattr(info, 'ext_opaques', ()))
+                for o in info.needs_deq:          # (b04, round 9) the callee's [DecidableEq T] needs are the caller's too
+                    if o not in self.needs_deq: self.needs_deq.append(o)
                 self.callees.append(info.lean_name)
                 return self.wrap(pre, MCall(" ".join([info.lean_name] + [n for n, _ in info.exts] + ["self"] + a)))
         if e[0] in ("call", "mcall"):
@@ -1871,6 +1879,8 @@ class FnTranslator:
             if bt[0] == "map" and bt[1] == ("str",) and e[2] == "remove":
                 k, kt = self.expr(e[4][0], env, pre, ("str",)); self.check_ty(kt, ("str",), "map key")
                 return self.place_set(recv, "(Rs.smapRemove %s %s)" % (base, k), env, pre)
+            if bt[0] == "map" and bt[1] == ("str",) and e[2] == "clear" and not e[4]:
+                return self.place_set(recv, "[]", env, pre)      # (b1617, round 9) BTreeMap<String, V>::clear
             if e[2] == "copy_from_slice" and len(e[4]) == 1:
                 dst = recv
                 while dst[0] in ("paren", "ref"): dst = dst[1]
@@ -2357,6 +2367,10 @@ class FnTranslator:
             if v == "None":
                 if want is not None and want[0] == "opt": return "none", want
                 return "none", ("opt", ("unknown",))
+            if v in self.u.externals and not self.u.externals[v].get("params"):
+                # (b0507) a constant of another file whose value is outside the subset: declared external without parameters
+                term, t, _k = self.call_external(v, [], env, pre)
+                return term, t
             c = self.u.const_value(v, self.local_consts)
             if c is not None:
                 if c[0] == "expr":
@@ -2399,6 +2413,11 @@ class FnTranslator:
                     ty, ce = idx.consts[segs[1]]
                     rt = self.u.resolve(ty)
                     if is_int(rt): return self.lit(self.u.const_eval(ce, {}), rt), rt
+        if "::".join(segs) in self.u.externals and not self.u.externals["::".join(segs)].get("params"):
+            # (b0507) an associated constant of a type of another file / crate (`VelocityControlSpec::UNLIMITED`): declared
+            # external without parameters
+            term, t, _k = self.call_external("::".join(segs), [], env, pre)
+            return term, t
         raise RsError("path %s is outside the subset" % "::".join(segs))
 
     def unary(self, e, env, pre, want):
@@ -2795,6 +2814,10 @@ class FnTranslator:
             if t == INTLIT: raise RsError("Some(literal) without a type")
             return "(some %s)" % term, ("opt", t), "val"
         if segs in (["Ok"], ["Err"]): raise RsError("Ok/Err outside tail position")
+        if segs in (["Arc", "new"], ["Box", "new"], ["Rc", "new"]) and len(args) == 1:
+            # (b0507) `Arc<T>` / `Box<T>` / `Rc<T>` are T (see resolve): their constructors are the identity
+            term, t = self.expr(args[0], env, pre, want if want is not None and want[0] != "opaque" else None)
+            return term, t, "val"
         if segs in (["min"], ["max"], ["cmp", "min"], ["cmp", "max"], ["core", "cmp", "min"], ["core", "cmp", "max"]):
             a, at, b, bt = self.operands(args[0], args[1], env, pre, want)
             if at != bt or not is_int(at): raise RsError("min/max on %r, %r" % (at, bt))
@@ -3101,6 +3124,21 @@ class FnTranslator:
     def mcall(self, e, env, pre, want):
         _, recv, m, turbo, args, line = e
         wr = getattr(self, "wr_of", {}).get(id(e), False)
+        if m in ("unwrap", "expect") and recv[0] in ("call", "mcall") and self.is_result:
+            # (b1012, round 9) `f(..).unwrap()` / `.expect(msg)` on the `Result` of a translated (or monadic external) call that
+            # does not update state: an `Err` is a panic (`Rs.unwrapOk`), a panic or overflow inside stays what it is.
+            # (a probe first: any other receiver goes on below, untouched)
+            pre0, n0 = [], self.n
+            try:
+                r0 = self.call_any(recv, env, pre0, want_result=True)
+            except RsError:
+                r0 = None
+            if r0 is not None and r0[2] == "comp":
+                pre.extend(pre0)
+                v = self.fresh()
+                pre.append(("bind", v, MCall("Rs.unwrapOk (%s)" % r0[0])))
+                return v, r0[1], "val"
+            self.n = n0
         if recv == ("path", ["self"]) and ("self." + m) in self.u.externals:
             return self.call_external("self." + m, args, env, pre)
         if recv == ("path", ["self"]) and self.impl and "%s.%s" % (self.impl, m) in self.u.externals and "self" in env:
@@ -3119,6 +3157,8 @@ class FnTranslator:
                     v = self.fresh("r")
                     call = " ".join([info.lean_name] + [n for n, _ in info.exts] + ["self"] + a)
                     for x in info.exts: self.add_ext(*x, ops=getattr(info, 'ext_opaques', ()))
+                    for o in info.needs_deq:      # (b04, round 9) as in call_translated / invoke
+                        if o not in self.needs_deq: self.needs_deq.append(o)
                     self.callees.append(info.lean_name)
                     if not self.is_result: raise RsError("Result method called outside a Result function")
                     if not wr:
@@ -3499,6 +3539,12 @@ class FnTranslator:
             return "(%s.getD %s)" % (base, d), el, "val"
         if m == "unwrap_or_default" and is_uint(el):
             return "(%s.getD 0)" % base, el, "val"
+        if m == "unwrap_or_default" and el[0] == "struct" and (el[1], "default") in self.u.fi.fns and not args:
+            # (b0507) `impl Default for S` of the unit's files: the translated `S::default()`
+            info = self.u.get_fn(el[1], "default")
+            d, dt, kind = self.call_translated(info, [], env, pre)
+            if kind != "val" or dt != el: raise RsError("unwrap_or_default: %s::default() outside the subset" % el[1])
+            return "(%s.getD %s)" % (base, d), el, "val"
         if m in ("unwrap_or_else", "or_else"):
             pats, ir, t = self.closure1(args[0], [], env, el if m == "unwrap_or_else" else bt)
             rt = el if m == "unwrap_or_else" else bt
